@@ -72,6 +72,7 @@ type RunCfg struct {
 	unroll       map[string]int             // loopKey -> K (bounded stand-in / full unroll)
 	unwindAssert map[string]bool            // loopKey: prove that K iterations suffice (complete)
 	unrollAll    int                        // != 0: every loop without an entry in unroll is unrolled this often (-1: zero times)
+	noVariant    map[string]bool            // loops whose termination is not claimed (probabilistic)
 	fnScope      string                     // non-empty: record the write set of the verified function under this key
 	paramWrites  map[string]string          // "<param index>|<suffix>" -> kind name (frame computation)
 	strict       bool                       // strict (len, not cap) bounds on input-derived slices
@@ -81,7 +82,7 @@ type RunCfg struct {
 
 func newRunCfg() *RunCfg {
 	return &RunCfg{disabled: map[string]bool{}, modKinds: map[string]map[string]bool{}, fullHavoc: map[string]bool{},
-		unroll: map[string]int{}, unwindAssert: map[string]bool{}, paramWrites: map[string]string{}, strict: true, maxDepth: 14, useSummary: map[string]bool{}}
+		unroll: map[string]int{}, unwindAssert: map[string]bool{}, noVariant: map[string]bool{}, paramWrites: map[string]string{}, strict: true, maxDepth: 14, useSummary: map[string]bool{}}
 }
 
 type Exec struct {
@@ -793,6 +794,9 @@ func (ex *Exec) finishLoop(f *Frame, act *loopAct) {
 		alts = append(alts, And(act.varGoals[i]...))
 		names = append(names, vc.name)
 	}
+	if ex.cfg.noVariant[act.key] {
+		return
+	}
 	o := &Obligation{Name: act.key + "#variant", Class: "variant", Fn: fnName(f.fn), NHyps: len(ex.hyps), Alts: alts}
 	o.Raw = "candidates: " + strings.Join(names, ", ")
 	if len(alts) == 0 {
@@ -987,6 +991,42 @@ func (ex *Exec) variantCandidates(f *Frame, act *loopAct, phis []*ssa.Phi) []var
 		switch act.headVals[p].(type) {
 		case SliceV:
 			out = append(out, variantCand{"len(" + nm + ")", func(get func(*ssa.Phi) Value, _ *Frame) *Term { return get(p).(SliceV).Len }, false})
+			// X - len(p) for loop-invariant X that len(p) is compared with
+			for b := range act.info.body {
+				for _, ins := range b.Instrs {
+					bo, ok := ins.(*ssa.BinOp)
+					if !ok {
+						continue
+					}
+					isLen := func(v ssa.Value) bool {
+						c, ok := v.(*ssa.Call)
+						if !ok {
+							return false
+						}
+						bi, ok := c.Call.Value.(*ssa.Builtin)
+						return ok && bi.Name() == "len" && c.Call.Args[0] == ssa.Value(p)
+					}
+					var other ssa.Value
+					if isLen(bo.X) {
+						other = bo.Y
+					} else if isLen(bo.Y) {
+						other = bo.X
+					} else {
+						continue
+					}
+					if _, ok := intKindOf(other.Type()); !ok || !loopInvariant(other, act.info, 0) {
+						continue
+					}
+					ov := other
+					out = append(out, variantCand{ov.Name() + "-len(" + nm + ")", func(get func(*ssa.Phi) Value, fr *Frame) *Term {
+						x := ex.pureVal(fr, ov)
+						if x == nil {
+							return Int(0)
+						}
+						return Sub(x, get(p).(SliceV).Len)
+					}, false})
+				}
+			}
 		case *Term:
 			if _, ok := intKindOf(p.Type()); !ok {
 				continue
@@ -1733,6 +1773,10 @@ func (ex *Exec) mapKeyTerm(mt *types.Map, key Value) *Term {
 		if k.Lit != nil {
 			return Int(int64(ex.P.internStr(*k.Lit)))
 		}
+		// a choice among literals (ite-tree over literal objects): choose among their ids
+		if t := ex.litChoiceKey(k.Arr, 0); t != nil {
+			return t
+		}
 		// symbolic string: compare with every interned literal
 		res := Int(-1)
 		for _, lit := range ex.P.internedSorted() {
@@ -1743,6 +1787,32 @@ func (ex *Exec) mapKeyTerm(mt *types.Map, key Value) *Term {
 	}
 	ex.unsupported(fmt.Sprintf("map key %T", key))
 	return Fresh("key", SInt, nil, nil)
+}
+
+// litChoiceKey maps an ite-tree whose leaves are literal string objects to the
+// ite-tree of the literals' intern ids.
+func (ex *Exec) litChoiceKey(arr *Term, depth int) *Term {
+	if depth > 8 {
+		return nil
+	}
+	if c, ok := arr.ConstInt(); ok {
+		if lit, ok := ex.P.litByRef[c]; ok {
+			return Int(int64(ex.P.internStr(lit)))
+		}
+		return nil
+	}
+	if arr.op != "ite" {
+		return nil
+	}
+	a := ex.litChoiceKey(arr.args[1], depth+1)
+	if a == nil {
+		return nil
+	}
+	b := ex.litChoiceKey(arr.args[2], depth+1)
+	if b == nil {
+		return nil
+	}
+	return Ite(arr.args[0], a, b)
 }
 
 func (ex *Exec) mapUpdate(f *Frame, x *ssa.MapUpdate) {
